@@ -200,13 +200,14 @@ pub fn image_comps(img: &Image) -> Vec<u64> {
 pub fn catch<T>(f: impl FnOnce() -> T) -> Result<T, String> {
     let r = std::panic::catch_unwind(std::panic::AssertUnwindSafe(f));
     r.map_err(|e| {
-        if let Some(s) = e.downcast_ref::<&str>() {
+        let m = if let Some(s) = e.downcast_ref::<&str>() {
             s.to_string()
         } else if let Some(s) = e.downcast_ref::<String>() {
             s.clone()
         } else {
             "panic".to_string()
-        }
+        };
+        m.replace(['\n', '\r', '\t'], "_")
     })
 }
 
